@@ -21,7 +21,7 @@ SymbolsOf(role) ==
   CASE role = "csize"  -> NumSymbols
     [] role = "tag"    -> TagSymbols
     [] role = "count"  -> NumSymbols \cup WideSymbols
-    [] role = "offset" -> NumSymbols \cup Wide64
+    [] role = "offset" -> NumSymbols \cup Wide64 \cup Lits({"511", "512", "513"})     \* 512 = MPQ header alignment
     [] role = "esize"  -> NumSymbols \cup Trunc16
     [] role = "bsize"  -> NumSymbols \cup Wide64
     [] role = "shift"  -> {"0", "1", "2", "orig-1", "orig+1", "i31max", "i31", "u32max"}
@@ -31,9 +31,10 @@ SymbolsOf(role) ==
     [] role = "strlen" -> NumSymbols
     [] role = "stroff" -> NumSymbols
     [] role = "term"   -> {"nonzero"}
+    [] role = "marker" -> RepSymbols
 
-FieldItems == {[arch |-> a, role |-> r, val |-> v] : a \in Archetypes, r \in UNION {Roles[x] : x \in Archetypes}, v \in NumSymbols \cup WideSymbols \cup TagSymbols \cup {"nonzero"} \cup
-                   {"3", "4", "5", "7", "8", "9", "15", "16", "17", "31", "32", "33", "63", "64", "255", "256"}}
+FieldItems == {[arch |-> a, role |-> r, val |-> v] : a \in Archetypes, r \in UNION {Roles[x] : x \in Archetypes}, v \in NumSymbols \cup WideSymbols \cup TagSymbols \cup RepSymbols \cup {"nonzero"} \cup
+                   {"3", "4", "5", "7", "8", "9", "15", "16", "17", "31", "32", "33", "63", "64", "255", "256", "511", "512", "513"}}
 FieldPlan == {it \in FieldItems : it.role \in Roles[it.arch] /\ it.val \in SymbolsOf(it.role)}
 
 PrefixClasses == {"0", "1", "2", "3", "4", "5", "7", "8", "9", "11", "12", "13", "15", "16", "17", "19", "20", "21",
